@@ -145,6 +145,10 @@ def execute(case, ctx):
         out["discards"]["disabled-session-died"] = 1
         return out
     ctx.count("clauses_checked")
+    for nm, r in (("active", a_res), ("disabled:" + route, d_res)):
+        if r.get("state_depth") not in (0, None) and route != "xdist":
+            viol("state-restored", f"snapshot-state-stack-not-restored-after-session:{nm.split(':')[0]}",
+                 f"after the {nm} session {r.get('state_depth')} snapshot state(s) were still pushed (a following in-process session / the embedding process reads the wrong state)")
     arec, drec = sim.rec_by_eid(a_res.get("rec", [])), sim.rec_by_eid(d_res.get("rec", []))
     if route == "xdist":
         drec = None  # the recording lives in the worker processes; only outcomes are compared
